@@ -58,9 +58,12 @@ def gen_src(rnd, depth=0, scope=None, rich=True):
     return "<%s%s%s>%s</%s>" % (name, decl, attrs, kids, name) if kids else "<%s%s%s/>" % (name, decl, attrs)
 
 
-def gen_api_tree(rnd, depth=0, xmlns_attr=False):
+def gen_api_tree(rnd, depth=0, xmlns_attr=False, special=False):
+    """`special`: the tree carries (somewhere) one of the inputs of the known C02 finding classes"""
     """content tree (see common.cnode) to be built through the API: any namespace on any element/attribute"""
     ns = rnd.choice(["", "", "u1", "u2", "u3", SVG])
+    if special and rnd.random() < .15:
+        ns = "a&b"
     attrs = {}
     for _ in range(rnd.randint(0, 2)):
         if rnd.random() < .12:
@@ -68,20 +71,22 @@ def gen_api_tree(rnd, depth=0, xmlns_attr=False):
         else:
             a = (rnd.choice(["", "", "u1", "u2", XLINK]), rnd.choice(["k", "j"]))
         attrs[a] = "".join(rnd.choice(API_ATTR) for _ in range(rnd.randint(0, 2)))
-    if xmlns_attr and rnd.random() < .4:
+    if (xmlns_attr and rnd.random() < .4) or (special and rnd.random() < .1):
         attrs[("", "xmlns")] = rnd.choice(["u1", "u9"])
     kids = []
     if depth < 3:
         for _ in range(rnd.randint(0, 3)):
             q = rnd.random()
-            if q < .35:
+            if special and rnd.random() < .12:
+                kids.append(rnd.choice([("text", ""), ("pi", "t", " x"), ("pi", "t", "\n")]))
+            elif q < .35:
                 kids.append(("text", "".join(rnd.choice(API_TEXT) for _ in range(rnd.randint(1, 3)))))
             elif q < .43:
                 kids.append(("comment", rnd.choice(["c", " <x/> & ", "", "-a"])))
             elif q < .5:
                 kids.append(("pi", rnd.choice(["t", "u"]), rnd.choice(["p", "", "a='<' ", "x?y>"])))
             else:
-                kids.append(gen_api_tree(rnd, depth + 1, xmlns_attr))
+                kids.append(gen_api_tree(rnd, depth + 1, xmlns_attr, special))
     return ("tag", ns, rnd.choice(["a", "b"]), sorted((a, b, c) for (a, b), c in attrs.items()), kids)
 
 
